@@ -74,7 +74,7 @@ def function_half(scratch):
             y = ['repository_owner: o', 'repository_slug: s', 'repository_host: mock', 'robot: robot',
                  'robot_email: r@x.org', 'build_key: "%s"' % ('' if nokey else 'pre-merge'),
                  'pr_author_options:', '  aaa_other:', '    - bypass_build_status', '    - bypass_peer_approval',
-                 '  author:' + (' []' if not (bypass and src == 1) else ''),]
+                 '  author:', '    - bypass_peer_approval', '    - bypass_jira_check']
             if bypass and src == 1:
                 y.append('    - bypass_build_status')
             y += ['  zzz_other:', '    - bypass_jira_check']
